@@ -4,6 +4,7 @@ package kcache
 
 import (
 	"context"
+	"sync/atomic"
 	"time"
 
 	logutil "github.com/boz/go-logutil"
@@ -85,3 +86,13 @@ const (
 	VerifDefaultRefreshPeriod = defaultRefreshPeriod
 	VerifDefaultRefreshFuzz   = defaultRefreshFuzz
 )
+
+// VerifYield, when set, is called at the marked scheduling points (with the
+// name of the site) so that the harness can perturb the schedule there.
+var VerifYield atomic.Pointer[func(site string)]
+
+func verifYield(site string) {
+	if f := VerifYield.Load(); f != nil {
+		(*f)(site)
+	}
+}
